@@ -36,10 +36,8 @@ def _violations(prop: str, overlay: Dict[str, str]) -> Tuple[List[Tuple[str, str
     # caches keyed by repo identity: a fresh Repo per variant
     try:
         repo = Repo(overlay=overlay)
-        chk = Check(prop, repo, "quick")
-        mod.run(chk)
-        from .rules.wellformed import check as _wf
-        _wf(chk)
+        from .runner import run_rules
+        chk = run_rules(prop, repo, "quick")
     except AnalysisError as e:
         return [], "ANALYSIS-ERROR: %s" % e
     known = load_known()
